@@ -105,7 +105,12 @@ const (
 	dirGroupDN = "ou=groups,dc=example,dc=org"
 )
 
-func userDN(i int) string  { return fmt.Sprintf("cn=user%02d,%s", i, dirUserDN) }
+func userDN(i int) string {
+	if i == 5 {
+		return "cn=zo\u00eb05," + dirUserDN // a DN with a non-ASCII character
+	}
+	return fmt.Sprintf("cn=user%02d,%s", i, dirUserDN)
+}
 func groupDN(i int) string { return fmt.Sprintf("cn=group%02d,%s", i, dirGroupDN) }
 
 var dirAttrNames = []string{"mail", "description", "sn", "telephoneNumber", "password"}
@@ -237,7 +242,11 @@ func DrawDir(prop, tier string, ch *Chooser, lean bool, s *Sim) *Dir {
 				c := ChangeRec{Op: int64(ch.Choose(3)), Type: dirAttrNames[ch.Choose(4)]}
 				if c.Op != 1 {
 					for k, m := 0, 1+ch.Choose(2); k < m; k++ {
-						c.Vals = append(c.Vals, fmt.Sprintf("n%d", ch.Choose(50)))
+						v := fmt.Sprintf("n%d", ch.Choose(50))
+						if ch.Choose(8) == 7 {
+							v += strings.Repeat("x", 126+ch.Choose(200)) // beyond a one-octet BER length
+						}
+						c.Vals = append(c.Vals, v)
 					}
 				}
 				op.Changes = append(op.Changes, c)
@@ -621,6 +630,23 @@ func findEntry(es []dEntry, dn string) int {
 	return -1
 }
 
+// unwrapAttrs replaces every value that is a complete BER octet string by its
+// contents.
+func unwrapAttrs(a map[string][]string) map[string][]string {
+	out := map[string][]string{}
+	for n, vs := range a {
+		var o []string
+		for _, v := range vs {
+			if t, err := ParseTLV([]byte(v)); err == nil && t.is(clsUniversal, false, 4) && len(v) > 0 {
+				v = string(t.Val)
+			}
+			o = append(o, v)
+		}
+		out[n] = o
+	}
+	return out
+}
+
 func sameAttrs(a, b map[string][]string) string {
 	var names []string
 	for n := range a {
@@ -828,11 +854,14 @@ func (d *Dir) judge(s *Sim, op *dOp, res *dResult) {
 			s.Violate("C20", "add-dup", "entry-returned-twice", fmt.Sprintf("search for %q returned it %d times", op.DN, n))
 		}
 		if diff := sameAttrs(pool[i].Attrs, got.Attrs); diff != "" {
-			cl := "attributes-differ"
-			if strings.Contains(diff, "\\x04") || strings.Contains(diff, "\x04") {
-				cl = "attribute-value-ber-wrapped"
+			// Values that arrive as the BER encoding of the value the model
+			// has are one (known) defect; anything that still differs once
+			// they are unwrapped is another.
+			if d2 := sameAttrs(pool[i].Attrs, unwrapAttrs(got.Attrs)); d2 != "" {
+				s.Violate("C20", "modify", "attributes-differ", fmt.Sprintf("search for %q: %s", op.DN, d2))
+			} else {
+				s.Violate("C20", "modify", "attribute-value-ber-wrapped", fmt.Sprintf("search for %q: %s", op.DN, diff))
 			}
-			s.Violate("C20", "modify", cl, fmt.Sprintf("search for %q: %s", op.DN, diff))
 		}
 	}
 }
